@@ -143,6 +143,22 @@ CHECKS = {
         "documented ordering).",
         "DESIGN.md section 4, C09",
     ),
+    "C12": (
+        "fault_enumeration",
+        "enumerated fault injection over the cross product of reap options, "
+        "farmer kinds and failure stages, with a byte-level directory digest "
+        "and a hook at the moment of deletion",
+        "Every valid combination of clean_up x allow_incomplete x wait x "
+        "farmer x failure stage (incomplete, unreadable result, wrong output "
+        "description, merge conflict, save error) is run on generated crops: "
+        "a failing reap must leave the crop byte-identical and the corrected "
+        "retry must deliver exactly the direct-run data; a succeeding reap "
+        "must remove the directory iff the documented rule says so, and only "
+        "after the Harvester/Sampler file verifiably holds the new data.",
+        "Runs as root, so permission faults are replaced by a missing "
+        "directory and an injected OSError; wait=True only on complete crops.",
+        "DESIGN.md section 4, C12",
+    ),
     "C13": (
         "exploration",
         "property-based testing (Hypothesis): pure-numpy reference for "
